@@ -83,10 +83,12 @@ func c09Mode(o *cli.Opts, run *evid.Run, bin, mode string) {
 		run.Violate(key+"/setup", "setup failed: "+err.Error(), nil)
 		return
 	}
-	srv, err := startServer(bin, ks, o, "c09-"+mode, nil)
+	// small hook delays between read, decode and prove keep several requests inside the handler at once
+	env := []string{"VERIF_DELAYS=prove.afterRead=2:6,prove.afterDecode=0:4", fmt.Sprintf("VERIF_SEED=%d", o.Seed)}
+	srv, err := startServer(bin, ks, o, "c09-"+mode, env)
 	if err != nil {
 		run.Inconclusive(key + ": server did not start: " + err.Error())
-		srv2, err2 := startServer(bin, ks, o, "c09-"+mode+"-retry", nil)
+		srv2, err2 := startServer(bin, ks, o, "c09-"+mode+"-retry", env)
 		if err2 != nil {
 			run.Violate(key+"/start", "`gnark-mbu start` does not come up with a valid keys file: "+err2.Error(), nil)
 			return
@@ -144,8 +146,8 @@ func c09Mode(o *cli.Opts, run *evid.Run, bin, mode string) {
 			run.Add("probes_answered", 1)
 		}
 	}
-	// a handful of fixed openers, then the PRNG history, 4 clients at a time
-	cli.ForEach(n, 4, func(i int) {
+	// the PRNG history, 6 clients at a time
+	cli.ForEach(n, 6, func(i int) {
 		rk := fmt.Sprintf("%s/%d", key, i)
 		if !run.Wants(rk) {
 			return
